@@ -2,7 +2,6 @@ package rules
 
 import (
 	"fmt"
-	"go/types"
 	"os"
 	"path/filepath"
 	"strings"
@@ -582,140 +581,172 @@ func hasTrueExtract(s *an.PathState, callee string, idx int) bool {
 
 // checkResultRule: in Check, the returned error becomes nil only on loop iterations whose facts include the
 // required conditions. needs ⊆ {valid, admin, supported}.
+//
+// The loop over the directory entries may stand in Check itself or in a walker interpreted inline whose callback is a
+// closure of Check (loopsite.go); the loop-carried result is a header phi or, in the closure form, a captured local of
+// Check. The demands are the same in every form: the value before the first entry is a definite failure; an iteration
+// either keeps the value or sets it to "accepted", and the latter only under the needs; no exit returns nil
+// independently of it.
 func checkResultRule(c *an.Ctx, p *an.Prog, check *ssa.Function, rule string, needs []string) {
-	// the loop-carried result: a header phi that decides whether Check returns nil — either the error that is returned
+	sites := loopSites(check)
+	// the loop-carried result: the carrier that decides whether Check returns nil — either the error that is returned
 	// itself, or a flag under which the function returns nil after the loop
-	var phi *ssa.Phi
-	accepting := "nil" // the constant value of phi that stands for "the store is fine"
+	var res *loopCarrier
+	accepting := "nil" // the constant value of the carrier that stands for "the store is fine"
 	var exitBad []string
-	errT := types.Universe.Lookup("error").Type()
-	for _, h := range loopHeaders(check) {
-		for _, in := range h.Instrs {
-			ph, ok := in.(*ssa.Phi)
-			if !ok {
-				break
+	for _, k := range carriers(check, sites) {
+		k := k
+		uses, pol := 0, ""
+		var bad []string
+		k.site.exits(func(s *an.PathState) {
+			ret := lastReturn(s)
+			if ret == nil || len(ret.Args) != 1 {
+				return
 			}
-			isErr := types.Identical(ph.Type(), errT)
-			isBool := false
-			if bt, ok := ph.Type().Underlying().(*types.Basic); ok && bt.Kind() == types.Bool {
-				isBool = true
-			}
-			if !isErr && !isBool {
-				continue
-			}
-			uses, pol := 0, ""
-			var bad []string
-			an.EnumPaths(check, h, nil, func(s *an.PathState) {
-				ret := lastReturn(s)
-				if ret == nil || len(ret.Args) != 1 {
-					return
+			r := ret.Args[0]
+			pt := k.headerVal(s)
+			switch {
+			case k.isErr && r.K == pt.K:
+				uses++
+			case s.NonNil(r) || an.KnownNonNil(r):
+			case k.isBool && r.IsConst("nil") && s.IsTrue(pt):
+				uses++
+				if pol == "false" {
+					bad = append(bad, "nil is returned both when the flag is set and when it is not")
 				}
-				r := ret.Args[0]
-				pt := s.T(ph)
-				switch {
-				case isErr && r.K == pt.K:
-					uses++
-				case s.NonNil(r) || an.KnownNonNil(r):
-				case isBool && r.IsConst("nil") && s.IsTrue(pt):
-					uses++
-					if pol == "false" {
-						bad = append(bad, "nil is returned both when the flag is set and when it is not")
-					}
-					pol = "true"
-				case isBool && r.IsConst("nil") && s.IsFalse(pt):
-					uses++
-					if pol == "true" {
-						bad = append(bad, "nil is returned both when the flag is set and when it is not")
-					}
-					pol = "false"
-				default:
-					bad = append(bad, fmt.Sprintf("exit path %s returns %s, which may be nil, independently of what the loop found", s.BlockPath(), r.K))
+				pol = "true"
+			case k.isBool && r.IsConst("nil") && s.IsFalse(pt):
+				uses++
+				if pol == "true" {
+					bad = append(bad, "nil is returned both when the flag is set and when it is not")
 				}
-			})
-			if uses == 0 {
-				continue
+				pol = "false"
+			default:
+				bad = append(bad, fmt.Sprintf("exit path %s returns %s, which may be nil, independently of what the loop found", s.BlockPath(), r.K))
 			}
-			phi = ph
-			exitBad = bad
-			if isBool {
-				accepting = pol
-			}
+		})
+		if uses == 0 {
+			continue
+		}
+		res = k
+		exitBad = bad
+		if k.isBool {
+			accepting = pol
 		}
 	}
-	if phi == nil {
-		c.Undecided(rule, fnKey(check)+"|result", "-", "UNRESOLVED: cannot find the loop-carried result of Check (a header phi — the returned error, or a flag deciding whether nil is returned)")
+	if res == nil {
+		c.Undecided(rule, fnKey(check)+"|result", "-", "UNRESOLVED: cannot find the loop-carried result of Check (a header phi or a captured local — the returned error, or a flag deciding whether nil is returned)")
 		return
 	}
 	// initial value: not accepting
-	for i, pr := range phi.Block().Preds {
-		if phi.Block().Dominates(pr) {
-			continue // back edge
-		}
-		e := phi.Edges[i]
-		okInit := false
-		if accepting == "nil" {
-			if u, ok := e.(*ssa.UnOp); ok {
-				if g, ok := u.X.(*ssa.Global); ok && an.NonNilGlobal(g) {
-					okInit = true
-				}
+	noInit := "the result's value before the first entry is not a definite failure: an empty directory would pass the check"
+	if phi := res.phi; phi != nil {
+		for i, pr := range phi.Block().Preds {
+			if phi.Block().Dominates(pr) {
+				continue // back edge
 			}
-			if cl, ok := e.(*ssa.Call); ok {
-				n := an.CalleeName(cl)
-				okInit = n == "errors.New" || n == "fmt.Errorf"
-			}
-		} else if k, ok := e.(*ssa.Const); ok && k.Value != nil {
-			okInit = (k.Value.String() == "true") != (accepting == "true")
-		}
-		if !okInit {
-			exitBad = append(exitBad, "the result's value before the first entry is not a definite failure: an empty directory would pass the check")
-		}
-	}
-	hdr := phi.Block()
-	nset := 0
-	var bad []string
-	res := an.EnumPathsTo(check, hdr, nil, hdr, func(s *an.PathState) {
-		c.Stats["cfg_paths_enumerated"]++
-		in := s.PhiIn(phi)
-		if in == nil {
-			return
-		}
-		if !in.IsConst(accepting) {
-			// the only other admissible value is "unchanged" (the loop-carried value itself): anything else could
-			// turn an already accepted store back into a rejected one, depending on the directory's iteration order
-			if in.K != s.T(phi).K {
-				bad = append(bad, fmt.Sprintf("iteration path %s overwrites the check's result with %s: a supported admin seen earlier would be forgotten (verdict depends on readdir order)", s.BlockPath(), in.K))
-			}
-			return
-		}
-		nset++
-		for _, nd := range needs {
-			ok := false
-			switch nd {
-			case "valid":
-				ok = hasTrueExtract(s, storePkg+".checkUserFile", 0)
-			case "admin":
-				ok = hasTrueExtract(s, storePkg+".checkUserFile", 2)
-			case "supported":
-				for _, a := range s.Atoms {
-					if a.Op == "==" && a.B.IsConst("nil") && a.A.IsCallTo(storePkg+".isFormatSupported") {
-						ok = true
+			e := phi.Edges[i]
+			okInit := false
+			if accepting == "nil" {
+				if u, ok := e.(*ssa.UnOp); ok {
+					if g, ok := u.X.(*ssa.Global); ok && an.NonNilGlobal(g) {
+						okInit = true
 					}
 				}
+				if cl, ok := e.(*ssa.Call); ok {
+					n := an.CalleeName(cl)
+					okInit = n == "errors.New" || n == "fmt.Errorf"
+				}
+			} else if k, ok := e.(*ssa.Const); ok && k.Value != nil {
+				okInit = (k.Value.String() == "true") != (accepting == "true")
 			}
-			if !ok {
-				bad = append(bad, fmt.Sprintf("iteration path %s sets the result to nil without %s [%s]", s.BlockPath(), nd, s.FactsString()))
+			if !okInit {
+				exitBad = append(exitBad, noInit)
 			}
 		}
-	})
-	if !res.Complete {
+	} else {
+		// a captured local: its content on every path of Check that arrives at the loop for the first time
+		n := 0
+		er := res.site.toHeader(func(s *an.PathState) {
+			n++
+			v := s.Mem(res.cell)
+			okInit := false
+			switch {
+			case v == nil:
+			case accepting == "nil":
+				okInit = an.KnownNonNil(v)
+			case v.Op == "const" && (v.IsConst("true") || v.IsConst("false")):
+				okInit = !v.IsConst(accepting)
+			}
+			if !okInit {
+				exitBad = append(exitBad, noInit)
+			}
+		})
+		if n == 0 || !er.Complete {
+			exitBad = append(exitBad, noInit+" (no path to the loop found)")
+		}
+	}
+	nset := 0
+	var bad []string
+	complete := true
+	for _, l := range sites {
+		if res.phi != nil && l.hdr != res.phi.Block() {
+			continue // an SSA value carried by one loop cannot be changed by another
+		}
+		er := l.iter(func(s *an.PathState) {
+			c.Stats["cfg_paths_enumerated"]++
+			if s.StopBlock == nil {
+				return
+			}
+			in, unknown := res.next(s)
+			if unknown {
+				bad = append(bad, fmt.Sprintf("iteration path %s changes the check's result in a way that cannot be followed (its variable is handed to a call or written piecewise)", s.BlockPath()))
+				return
+			}
+			if in == nil {
+				return
+			}
+			if !in.IsConst(accepting) {
+				// the only other admissible value is "unchanged" (the loop-carried value itself): anything else could
+				// turn an already accepted store back into a rejected one, depending on the directory's iteration order
+				if in.K != res.headerVal(s).K {
+					bad = append(bad, fmt.Sprintf("iteration path %s overwrites the check's result with %s: a supported admin seen earlier would be forgotten (verdict depends on readdir order)", s.BlockPath(), in.K))
+				}
+				return
+			}
+			nset++
+			for _, nd := range needs {
+				ok := false
+				switch nd {
+				case "valid":
+					ok = hasTrueExtract(s, storePkg+".checkUserFile", 0)
+				case "admin":
+					ok = hasTrueExtract(s, storePkg+".checkUserFile", 2)
+				case "supported":
+					for _, a := range s.Atoms {
+						if a.Op == "==" && a.B.IsConst("nil") && a.A.IsCallTo(storePkg+".isFormatSupported") {
+							ok = true
+						}
+					}
+				}
+				if !ok {
+					bad = append(bad, fmt.Sprintf("iteration path %s sets the result to nil without %s [%s]", s.BlockPath(), nd, s.FactsString()))
+				}
+			}
+		})
+		if !er.Complete {
+			complete = false
+		}
+	}
+	if !complete {
 		bad = append(bad, "path limit")
 	}
 	bad = append(bad, exitBad...)
-	if nset == 0 {
-		c.Undecided(rule, fnKey(check)+"|result=nil", p.Pos(phi.Pos()), "UNRESOLVED: no loop iteration sets Check's result to nil")
+	if nset == 0 && len(bad) == 0 {
+		c.Undecided(rule, fnKey(check)+"|result=nil", res.pos(p), "UNRESOLVED: no loop iteration sets Check's result to nil")
 		return
 	}
-	c.Check(len(bad) == 0, rule, fnKey(check)+"|result=nil needs "+strings.Join(needs, "+"), p.InstrPos(phi), fmt.Sprintf("every iteration path (%d) that clears the error has %s", nset, strings.Join(needs, " ∧ ")), strings.Join(bad, "; "))
+	c.Check(len(bad) == 0, rule, fnKey(check)+"|result=nil needs "+strings.Join(needs, "+"), res.pos(p), fmt.Sprintf("every iteration path (%d) that clears the error has %s", nset, strings.Join(needs, " ∧ ")), strings.Join(bad, "; "))
 }
 
 // ---- C03.4: frontends add no path of their own ----
